@@ -90,6 +90,22 @@ CLAIMS = {
         "(listed in mc/typestate.py); <= 2 DMM channels per state.",
         "DESIGN.md §3 C13",
     ),
+    "C15": (
+        "model_checking",
+        "explicit-state BFS over EOM call histories with RefSched equality and block monitors; exhaustive grid over EOM "
+        "configurations x setpoints against an independent light-shift computation; exhaustive drift-corrected histories on "
+        "the emulator",
+        "(a) all histories up to depth 3-5 over a 13-16 op alphabet (enable / modify / EOM pulse / delay / disable, each with and "
+        "without drift correction, on empty and non-empty channels, custom buffer 40 vs derived) on 3 worlds: pulses square at "
+        "the latest setpoint, idle slots at the off-detuning, buffers and fall waits equal to RefSched; (b) 24 EOM "
+        "configurations {limiting beam} x {controlled beams} x {multiple control} x {shift coefficients} x 5-10 amplitudes "
+        "(below/at/above the limiting Rabi frequency) x 3 detunings x 21 optima + exact midpoints + the options themselves: "
+        "option set equals an independent computation, choice is the closest option, stored choice reproduces itself; (c) every "
+        "valid drift-corrected EOM history up to depth 3-4 is emulated and its final Rydberg population equals that of the same "
+        "pulses at zero off-detuning (5e-5).",
+        "Fall times trusted (C14). Populations compared at the final time only; single atom.",
+        "DESIGN.md §3 C15",
+    ),
 }
 
 PENDING_REASON = "check not built yet in this round (design in DESIGN.md §3); nothing is claimed for it"
